@@ -236,6 +236,41 @@ func runC11(c *rt.Ctx) {
 		}
 	})
 
+	// the leap rule for every year, not for samples: Feb 28/29/30 payloads of every year within +-1,000,000
+	// and of every century year (the only years where the /100 and /400 exceptions act) within +-999,999,999
+	c.Parallel("leap-rule-every-year", 0, func(w *rt.W) {
+		one := func(y int64) {
+			leap := ref.DaysIn(y, 2) == 29
+			acc := c11Decode(w, c11Encode(y, 2, 29))
+			if acc != leap {
+				// c11Decode has already reported it; count for the evidence
+				w.ClassN("feb-29-verdict-differs-from-leap-rule", 1)
+			}
+			c11Decode(w, c11Encode(y, 2, 30))
+			if !c11Decode(w, c11Encode(y, 2, 28)) {
+				w.ClassN("feb-28-rejected", 1)
+			}
+			if leap {
+				w.ClassN("leap-year-feb-29-payload", 1)
+			} else {
+				w.ClassN("common-year-feb-29-payload", 1)
+			}
+		}
+		for y := int64(-1000000) + int64(w.Shard); y <= 1000000; y += int64(w.NShards) {
+			one(y)
+		}
+		for y := int64(-999999900) + 100*int64(w.Shard); y <= 999999900; y += 100 * int64(w.NShards) {
+			one(y)
+			if y%400 != 0 {
+				w.ClassN("century-common-year-feb-29-payload", 1)
+			}
+		}
+		w.NT(1)
+	})
+	c.Exhaustive("Feb 28/29/30 payloads of every year in -1,000,000..1,000,000 and of every multiple of 100 in -999,999,900..999,999,900")
+	c.Require("century-common-year-feb-29-payload", 15000000)
+	c.Require("leap-year-feb-29-payload", 5000000)
+
 	gridYears := []int64{2022, 2024, 1900, 2000, 0, 1, -1, -4, -400, 9999, 999999999, -999999999}
 	c.Parallel("month-day-grid", 0, func(w *rt.W) {
 		for yi := w.Shard; yi < len(gridYears); yi += w.NShards {
